@@ -180,16 +180,15 @@ func c04InheritOptions(e *Env) {
 			continue
 		}
 		var calls []ssa.CallInstruction
-		var walk func(g *ssa.Function, d int)
-		walk = func(g *ssa.Function, d int) {
-			calls = append(calls, core.Calls(g, func(n string, _ ssa.CallInstruction) bool { return strings.HasSuffix(n, "pool.Message.ResetOptionsTo") })...)
-			if d < 3 {
-				for _, a := range g.AnonFuncs {
-					walk(a, d+1)
+		seenCall := map[ssa.CallInstruction]bool{}
+		for _, g := range core.WithAnon(f) { // the function, its literals, and those of the helpers analysed as part of them
+			for _, c := range core.Calls(g, func(n string, _ ssa.CallInstruction) bool { return strings.HasSuffix(n, "pool.Message.ResetOptionsTo") }) {
+				if !seenCall[c] {
+					seenCall[c] = true
+					calls = append(calls, c)
 				}
 			}
 		}
-		walk(f, 0)
 		ok := false
 		why := "no ResetOptionsTo(template options) any more: the options of the template are copied selectively or not at all"
 		if delegatesToClone(f) && !strings.HasSuffix(fn, ".cloneMessage") {
@@ -396,7 +395,10 @@ func c04Guard(e *Env, prm *ssa.Function) {
 			}
 		}
 		q := &core.PathQuery{Fn: prm, From: call, Target: core.IsReturn,
-			Stop:      func(in ssa.Instruction) bool { c, ok := in.(*ssa.Call); return ok && closeV != nil && core.Resolve(c.Call.Value) == ssa.Value(closeV) },
+			Stop: func(in ssa.Instruction) bool {
+				c, ok := in.(*ssa.Call)
+				return ok && closeV != nil && core.Resolve(c.Call.Value) == ssa.Value(closeV)
+			},
 			DeferStop: func(d *ssa.Defer) bool { return closeV != nil && core.Resolve(d.Call.Value) == ssa.Value(closeV) },
 			EdgeOK: func(i *ssa.If, branch bool) bool {
 				ev, nilBranch, ok := core.ErrNilEdge(i)
